@@ -8,6 +8,9 @@ for sid in sorted(os.listdir(os.path.join(ROOT, "seeded"))):
     if only and sid not in only and sid.split("-")[0] not in only:
         continue
     m = json.load(open(os.path.join(ROOT, "seeded", sid, "meta.json")))
+    if m.get("retired"):
+        print(sid, "retired (patch no longer applies; see meta.json)", flush=True)
+        continue
     checks = [m["property"]]
     p = subprocess.run([sys.executable, os.path.join(ROOT, "lib", "seedtest.py"), "run", sid] + checks, capture_output=True, text=True)
     m = json.load(open(os.path.join(ROOT, "seeded", sid, "meta.json")))
